@@ -223,10 +223,20 @@ func (t *Transaction) rowsFromTransactionCacheAndDatabase(table string, where []
 	// prefer rows from transaction cache while copying into cache
 	// rows that are in the db.
 	for rowUUID, row := range rows {
+		if _, deleted := t.DeletedRows[rowUUID]; deleted {
+			// the row was deleted earlier in this transaction, do not bring
+			// it back to the transaction cache
+			delete(rows, rowUUID)
+			continue
+		}
 		if txnRow, found := txnRows[rowUUID]; found {
 			rows[rowUUID] = txnRow
 			// delete txnRows so that only inserted rows remain in txnRows
 			delete(txnRows, rowUUID)
+		} else if t.Cache.Table(table).HasRow(rowUUID) {
+			// the row was updated earlier in this transaction and no longer
+			// matches the conditions
+			delete(rows, rowUUID)
 		} else {
 			// warm the transaction cache with the current contents of the row
 			if err := t.Cache.Table(table).Create(rowUUID, row, false); err != nil {
